@@ -1,6 +1,6 @@
 From Coq Require Import Extraction ExtrOcamlBasic.
 From F8 Require Import Base.Conv Codec.Bytes Codec.Meta Codec.Extract Codec.Decode Codec.Encode Codec.Render
-                       C02.Spec_C02 C02.WfC02 C01.Spec_C01 C01.WfC01.
+                       C02.Spec_C02 C02.WfC02 C01.Spec_C01 C01.WfC01 C01.WfGroups.
 Extraction Language OCaml.
 Extraction "../ocaml/gen/C01/model.ml" keep_types
   cstr itoa_N itoa_Z fast_atoi_u16 fast_atoi_u32 fast_atoi_i32
@@ -8,5 +8,5 @@ Extraction "../ocaml/gen/C01/model.ml" keep_types
   mk_message create_group add_field find_add_group group_add set_value
   real_caps factory msg_encode msg_encode_str
   render_default canonical list_eqb
-  tree_of wf_ctx wf_msg fresh c01_flat vals_canonical
+  tree_of wf_ctx wf_msg fresh c01_flat vals_canonical c01_groups
   c01_ok.
